@@ -311,6 +311,47 @@ fn bad_points(len: usize, good: &[u8], salt: u64) -> Vec<(&'static str, Vec<u8>)
     v
 }
 
+/// Share sets (identifiers 1, 2, 3 of a 2-of-3 split) in which two or three payloads are on the curve but
+/// outside the subgroup, arranged so that the stray components cancel — in the plain sum of the payloads, or
+/// under the Lagrange weights (3, -3, 1) of the full set / (2, -1) of the pair {1, 2}. `R` is either a point
+/// with a subgroup and a torsion part, or pure torsion (then the recombined value would even be the honest one).
+/// Every returned set still contains at least two payloads that are not subgroup points.
+fn compensated_sets(hdr: usize, items: &[Vec<u8>], salt: u64) -> Vec<(String, Vec<Vec<u8>>)> {
+    let mut out = vec![];
+    let plen = items[0].len() - hdr;
+    let pts: Vec<Pt> = items.iter().filter_map(|i| Pt::from_bytes(&i[hdr..])).collect();
+    if pts.len() != 3 {
+        return out;
+    }
+    let rs = [("mixed", Pt::from_bytes_unchecked(&refimpl::off_subgroup_point(plen, salt)).unwrap()), ("torsion", refimpl::small_order_point(plen, salt ^ 9))];
+    for (kind, r) in rs {
+        let r2 = r.add(&r);
+        let shapes: [(&str, Vec<Option<Pt>>); 3] = [
+            ("plain-sum-cancels", vec![Some(pts[0].add(&r)), Some(pts[1].sub(&r)), Some(pts[2].clone())]),
+            ("lagrange-weights-cancel", vec![Some(pts[0].add(&r)), Some(pts[1].add(&r)), Some(pts[2].clone())]),
+            ("pair-lagrange-weights-cancel", vec![Some(pts[0].add(&r)), Some(pts[1].add(&r2)), None]),
+        ];
+        for (shape, set) in shapes {
+            let mut v = vec![];
+            let mut stray = 0;
+            for (i, p) in set.iter().enumerate() {
+                let Some(p) = p else { continue };
+                let b = p.to_bytes();
+                if refimpl::classify_point(&b) == refimpl::PointClass::OnCurveNotInSubgroup {
+                    stray += 1;
+                }
+                let mut f = items[i][..hdr].to_vec();
+                f.extend_from_slice(&b);
+                v.push(f);
+            }
+            if stray >= 2 {
+                out.push((format!("{}-{}", shape, kind), v));
+            }
+        }
+    }
+    out
+}
+
 fn must_reject(rec: &mut Rec, lib: &dyn Lib, g: Grp, ty: Ty, cd: Codec, bytes: &[u8], why: &str) {
     let out = recode(rec, lib, g, ty, cd, Codec::Bytes, bytes);
     rec.expect("C16", "malformed-encoding-rejected", !out.is_ok(), || format!("{} {} {} | decoder returned a value for a malformed encoding ({})", why, ty.name(), cd.name(), short(bytes)));
@@ -438,6 +479,22 @@ fn run_byz_encoder(plan: &Plan, lib: &dyn Lib, rec: &mut Rec) {
                 let set: Vec<&[u8]> = (0..3).map(|i| if i == victim { fe.as_slice() } else { es[i].as_slice() }).collect();
                 let o = rec.call(lib, g, Op::EgDkFromShares, &set);
                 rec.expect("C16", "invalid-share-payload-reported-at-use", !o.is_ok(), || format!("{} ElGamalDecryptionKey::from_shares | invalid payload combined", what));
+            }
+            // several invalid payloads that compensate each other: a check on the combined value alone cannot see them
+            let sites: [(&str, Op, usize, &Vec<Vec<u8>>); 4] = [
+                ("Signature::from_shares", Op::SigFromShares, 2, &parts),
+                ("PublicKey::from_shares", Op::PkFromShares, 1, &d.pk_shares),
+                ("SignCryptDecryptionKey::from_shares", Op::DkFromShares, 1, &ds),
+                ("ElGamalDecryptionKey::from_shares", Op::EgDkFromShares, 1, &es),
+            ];
+            for (name, op, hdr, items) in sites {
+                for (what, set) in compensated_sets(hdr, items, plan.seed ^ 0xC0) {
+                    rec.fault("byz-compensating-payloads");
+                    rec.case(&[16, g as u64, 210, op as u64, what.len() as u64], true);
+                    let refs: Vec<&[u8]> = set.iter().map(|v| v.as_slice()).collect();
+                    let o = rec.call(lib, g, op, &refs);
+                    rec.expect("C16", "invalid-share-payload-reported-at-use", !o.is_ok(), || format!("{} {} | share payloads outside the subgroup whose stray parts cancel were combined", what, name));
+                }
             }
         }
     }
@@ -676,6 +733,31 @@ fn run_hostile_frames(plan: &Plan, lib: &dyn Lib, rec: &mut Rec) {
             x.bytes(l)
         },
     ];
+    // declared lengths around every width boundary of the length arithmetic (7-bit groups, 32/64/128-bit words):
+    // base - 1, base, base + 1 always, three more drawn within +-24; followed by 0, 1 or 40 payload bytes
+    let mut frames = frames;
+    for sh in [7u32, 14, 21, 28, 31, 32, 35, 63, 64, 70, 127, 128] {
+        let base: u128 = if sh == 128 { 0 } else { 1u128 << sh };
+        let mut offs = vec![-1i128, 0, 1];
+        for _ in 0..3 {
+            offs.push(x.below(49) as i128 - 24);
+        }
+        for o in offs {
+            let v = if o < 0 { base.wrapping_sub((-o) as u128) } else { base.wrapping_add(o as u128) };
+            let mut f = refimpl::leb128(v);
+            let tail = *x.pick(&[0usize, 1, 40]);
+            f.extend(x.bytes(tail));
+            frames.push(f);
+        }
+    }
+    // 19-byte encodings whose last group carries bits beyond the 128th
+    for last in [0x03u8, 0x04, 0x07, 0x7f, 0x02] {
+        let mut f = vec![0xff; 18];
+        f.push(last);
+        let tail = *x.pick(&[0usize, 1, 40]);
+            f.extend(x.bytes(tail));
+        frames.push(f);
+    }
     for scheme in 0u8..3 {
         for fr in &frames {
             rec.fault("byz-arbitrary-frame");
